@@ -146,7 +146,7 @@ Theorem C02_node_creation :
     let x := e_down e in
     let npts := map (fill_origin origin) (node_rows ns x) in
     let epts := sent_edge_points e origin now in
-    has_nan npts = false -> has_nan epts = false -> x <> parent -> x <> s_root U ->
+    has_nan npts = false -> bad_times npts = false -> bad_times epts = false -> has_nan epts = false -> x <> parent -> x <> s_root U ->
     find_edge (s_edges U) parent x = None ->
     is_upstream (s_edges U) (fuel_of (s_edges U)) x parent = false ->
     last_node_type (collapse epts) <> [] ->
